@@ -45,6 +45,11 @@ rule "leak" salience 5 begin
   got = once()
   if got { secret = 4242 }
   hold(got)
+  lsum = 0
+  for li = 0; li < 40; li += 1 {
+    lsum = lsum + li
+  }
+  probe9(lsum)
   probe(secret)
 end
 rule "dirty" salience 4 begin
@@ -109,6 +114,8 @@ rule "keeper" salience -10 begin
   kept = Shared.Tags
   Shared.Tags = Shared.Tags2
   probe6(kept[0], Shared.Tags[0])
+  alias = Shared.Tags2
+  alias[1] = 4242
 end
 rule "looper" salience -11 begin
   forRange Cur := Shared.Tags2 {
@@ -160,7 +167,14 @@ end
 			seen5.Store(fmt.Sprintf("got %d, the rule's own function gives %d", got, want))
 		}
 	}
-	apis := map[string]interface{}{"probe8": probe8, "probe6": probe6, "Cur": cur, "probe4": probe4, "probe5": probe5,
+	// a counting loop of one execution is nobody else's: 0+1+...+39 = 780, however many executions of the rule overlap
+	var bad9 int64
+	probe9 := func(v int64) {
+		if v != 780 {
+			atomic.AddInt64(&bad9, 1)
+		}
+	}
+	apis := map[string]interface{}{"probe9": probe9, "probe8": probe8, "probe6": probe6, "Cur": cur, "probe4": probe4, "probe5": probe5,
 		"pickdouble": func() func(int64) int64 { return func(x int64) int64 { return 2 * x } },
 		"picktriple": func() func(int64) int64 { return func(x int64) int64 { return 3 * x } },
 		"once":       once, "probe": probe, "hold": hold, "probe2": probe2, "probe3": probe3, "Shared": shared,
@@ -228,6 +242,10 @@ end
 			k.Violate("function-local-foreign/"+label, fmt.Sprintf("%s: a rule that assigned its own function to the local hfn called another one %d time(s): %v", label, n, seen5.Load()),
 				map[string]interface{}{"rule_text": text, "scenario": label})
 		}
+		if n := atomic.SwapInt64(&bad9, 0); n > 0 {
+			k.Violate("loop-variable-shared/"+label, fmt.Sprintf("%s: the counting loop `for li = 0; li < 40; li += 1 { lsum = lsum + li }` of the rule gave another sum than 780 in %d execution(s): its loop variable or its accumulator is not its own", label, n),
+				map[string]interface{}{"rule_text": text, "scenario": label})
+		}
 		k.Count("calls_of_function_valued_locals", atomic.SwapInt64(&calls5, 0))
 		k.Distinct("leak", label, len(got))
 	}
@@ -262,6 +280,10 @@ end
 		mu.Unlock()
 		if len(s6) != 1 || s6[0] != [2]int64{11, 21} {
 			k.Violate("local-follows-injected-data", fmt.Sprintf("`kept = Shared.Tags  Shared.Tags = Shared.Tags2  probe6(kept[0], Shared.Tags[0])` observed %v, expected [[11 21]]: the local is the value it was given", s6),
+				map[string]interface{}{"rule_text": text})
+		}
+		if shared.Tags2[1] != 4242 {
+			k.Violate("injected-slice-not-shared", fmt.Sprintf("`alias = Shared.Tags2  alias[1] = 4242`: the host sees Shared.Tags2 = %v - a local that holds an injected slice refers to the injected elements", shared.Tags2),
 				map[string]interface{}{"rule_text": text})
 		}
 		if *cur != 2 {
